@@ -212,7 +212,18 @@ class ScoreToSimpleVotes:
 
     def aggregate_one(self, cscores: Dict[Any, int]) -> Any:
         """Aggregate corrected scores for a candidate to a single score."""
-        return self.function([
+        return self._apply(self.function, cscores)
+
+    @staticmethod
+    def _apply(function: Callable[[List[Any]], Any],
+               cscores: Dict[Any, int],
+               ) -> Any:
+        # the common aggregates are computed from the counts directly; other
+        # functions get a list with one item per voter
+        counted = votelib.util.COUNTED_AGGREGATORS.get(function)
+        if counted is not None:
+            return counted(cscores)
+        return function([
             score for score, count in cscores.items() for i in range(count)
         ])
 
@@ -226,10 +237,7 @@ class ScoreToSimpleVotes:
         copied = False
         if n_votes is not None and self.unscored_value is not None:
             if hasattr(self.unscored_value, '__call__'):
-                unscored = self.unscored_value([
-                    score for score, count in scores.items()
-                        for i in range(count)    # noqa: E131
-                ])
+                unscored = self._apply(self.unscored_value, scores)
             else:
                 unscored = self.unscored_value
             if not copied:
